@@ -112,6 +112,88 @@ def labelled_str(idx, labd, sort, rotate=False):
     return ";".join(",".join(str(x) for _, x in c) for c in cls) if cls else "-"
 
 
+def unlisted(ctx, key, what, rp):
+    """a defect of the CLEAN code on a legal form / history: alarmed only once listed in known_findings.txt"""
+    if key in ctx.known:
+        ctx.spec_fail(key, what, rp)
+    else:
+        ctx.count("unlisted-finding:" + key)
+        if len(ctx.notes) < 40:
+            ctx.notes.append("unlisted-finding:%s: %s" % (key, what))
+
+
+def arrays_of(x, depth=0, seen=None):
+    """every ndarray reachable from x (ndarray, sparse matrix, list/tuple/dict, quantecon object)"""
+    out = []
+    seen = set() if seen is None else seen
+    if id(x) in seen or depth > 4:
+        return out
+    seen.add(id(x))
+    if isinstance(x, np.ndarray):
+        out.append(x)
+    elif sparse.issparse(x):
+        for nm in ("data", "indices", "indptr", "row", "col"):
+            a = getattr(x, nm, None)
+            if isinstance(a, np.ndarray) and a.dtype != object:
+                out.append(a)
+    elif isinstance(x, (list, tuple)):
+        for e in x:
+            out += arrays_of(e, depth + 1, seen)
+    elif isinstance(x, dict):
+        for e in x.values():
+            out += arrays_of(e, depth + 1, seen)
+    elif type(x).__module__.startswith("quantecon") and hasattr(x, "__dict__"):
+        for e in vars(x).values():
+            out += arrays_of(e, depth + 1, seen)
+    return out
+
+
+def share(a, b):
+    return isinstance(a, np.ndarray) and isinstance(b, np.ndarray) and a.size > 0 and b.size > 0 and np.shares_memory(a, b)
+
+
+class Snapshot:
+    """bitwise snapshot of an argument (ndarray / list / tuple / sparse matrix of any format)"""
+
+    def __init__(self, x):
+        import copy
+        self.x = x
+        if isinstance(x, np.ndarray):
+            self.kind, self.c = "nd", (x.copy(order="K"), x.dtype, x.shape, x.strides)
+        elif sparse.issparse(x):
+            self.kind = "sp"
+            self.c = (x.format, x.dtype, x.shape,
+                      [(nm, getattr(x, nm).copy()) for nm in ("data", "indices", "indptr", "row", "col")
+                       if isinstance(getattr(x, nm, None), np.ndarray) and getattr(x, nm).dtype != object],
+                      copy.deepcopy(x.rows.tolist()) if x.format == "lil" else None,
+                      copy.deepcopy(x.data.tolist()) if x.format == "lil" else None)
+        else:
+            self.kind, self.c = "py", copy.deepcopy(x)
+
+    def changed(self):
+        x = self.x
+        if self.kind == "nd":
+            c, dt, sh, st = self.c
+            if x.dtype != dt or x.shape != sh or x.strides != st:
+                return "dtype/shape/strides changed"
+            if x.tobytes() != c.tobytes():
+                return "contents changed"
+        elif self.kind == "sp":
+            fmt, dt, sh, arrs, lrows, ldata = self.c
+            if x.format != fmt or x.dtype != dt or x.shape != sh:
+                return "format/dtype/shape changed"
+            for nm, a in arrs:
+                b = getattr(x, nm)
+                if b.dtype != a.dtype or b.shape != a.shape or b.tobytes() != a.tobytes():
+                    return "%s changed: %s -> %s" % (nm, a.tolist(), b.tolist())
+            if lrows is not None and (x.rows.tolist() != lrows or x.data.tolist() != ldata):
+                return "lil rows/data changed"
+        else:
+            if x != self.c or type(x) is not type(self.c):
+                return "contents changed"
+        return None
+
+
 def adj_str(rows):
     return ";".join(",".join(str(v) for v in r) if r else "-" for r in rows)
 
@@ -131,7 +213,13 @@ def run(ctx):
                 "MarkovChain dense / sparse (also with stored zeros); with and without labels; object HISTORIES on one "
                 "DiGraph / MarkovChain (6-14 steps: node_labels / state_values reassigned to permuted, int, float, string labels "
                 "or None, interleaved with reads of every indices / labelled / count / period / subgraph property; every read "
-                "compared with the model's state machine and judged against the CURRENT labels). Non-trivial: n>=2 and at least one edge "
+                "compared with the model's state machine and judged against the CURRENT labels; every earlier result is kept "
+                "bitwise and re-judged after every later step, the caller scribbles over earlier results, np.shares_memory of "
+                "every returned array with inputs / earlier results / the object's own arrays, all inputs bitwise unchanged); "
+                "ARGUMENT FORMS (adjacency / P as list, tuple, C, F, strided, reversed and transposed views, bool..uint64 and "
+                "float32/64 dtypes, csr/csc/coo/lil/bsr/dia/dok with int32/int64 indices and stored zeros; labels as list / tuple / "
+                "int8..int64 / strided views; weighted positional / keyword / NumPy bool; subgraph nodes as list / tuple / "
+                "int8..uint64 / views). Non-trivial: n>=2 and at least one edge "
                 "between different nodes; distinct by request line")
 
     def spec(kind, key_prefix, A, rep, replay):
@@ -697,7 +785,7 @@ def run(ctx):
         wname = {"sc": "sc" if kind == "dg" else "irr", "nscc": "nscc" if kind == "dg" else "ncomm",
                  "nsink": "nsink" if kind == "dg" else "nrec"}
         lab_of = {"scclab": "scc", "sinklab": "sink", "cyclab": "cyc", "commlab": "comm", "reclab": "rec"}
-        reads = list(names["idx"]) + list(names["lab"]) * 3 + ["sc", "nscc", "nsink", "period", "aper"] + (["sub"] if kind == "dg" else [])
+        reads = list(names["idx"]) + list(names["lab"]) * 3 + ["sc", "nscc", "nsink", "period", "aper"] + (["sub"] * 3 if kind == "dg" else [])
         frozen = "unbuilt"          # MarkovChain: labels its digraph was built with
         steps, outs = [], []
         seen_lab_read = set()
@@ -726,8 +814,51 @@ def run(ctx):
                     fail(kind + ":hist-read", "cyclic classes of a reducible input: %s" % (got,))
 
         plan = [None] * rng.randint(6, 14) if script is None else script["steps"]
+        last_nodes = []
+        kept = []                       # (description, arrays as returned, bit copies taken at return time)
+        in_snaps = [Snapshot(arg)] if kind == "dg" else [Snapshot(obj.P)]
+        in_arrays = arrays_of(arg)
+
+        def after_step(new_arrays, desc):
+            """class (1)/(2) checks after every step: earlier results bitwise unchanged, inputs bitwise unchanged, a newly
+            returned array shares memory with no input, no earlier result and nothing the object holds"""
+            for d, arrs, cps in kept:
+                for a, c in zip(arrs, cps):
+                    if a.dtype != c.dtype or a.shape != c.shape or a.tobytes() != c.tobytes():
+                        fail(kind + ":hist-earlier-result-changed", "%s returned earlier changed from %s to %s after %s"
+                             % (d, c.tolist(), a.tolist(), desc))
+            for sn in in_snaps:
+                why = sn.changed()
+                if why:
+                    fail(kind + ":mutated-input", "an argument of the history was modified (%s) after %s" % (why, desc))
+            if new_arrays:
+                held = arrays_of(obj)
+                for a in new_arrays:
+                    if any(share(a, b) for b in in_arrays):
+                        fail(kind + ":alias-input", "%s returns memory of an input" % desc)
+                    if any(share(a, b) for _, arrs, _ in kept for b in arrs):
+                        fail(kind + ":alias-returned", "%s returns memory of an earlier result" % desc)
+                    if any(share(a, b) for b in held):
+                        fail(kind + ":alias-state", "%s returns memory the object itself holds" % desc)
+                if len(new_arrays) > 1 and any(share(a, b) for i_, a in enumerate(new_arrays) for b in new_arrays[i_ + 1:]):
+                    fail(kind + ":alias-returned", "%s returns overlapping arrays" % desc)
+                kept.append((desc, list(new_arrays), [a.copy() for a in new_arrays]))
+                ctx.count("hist:alias-checked-reads")
+
         for planned in plan:
             r = rng.random()
+            if planned is None and kept and rng.random() < 0.12:
+                # the caller scribbles over a result it was handed earlier: later answers must not notice
+                d, arrs, cps = kept[rng.randrange(len(kept))]
+                for a_i, a in enumerate(arrs):
+                    if a.flags.writeable and a.size:
+                        a[...] = a[::-1].copy() if rng.random() < 0.5 and a.size > 1 else (a[0] if a.dtype.kind in "US" else a + 7)
+                        cps[a_i] = a.copy()
+                ctx.count("hist:caller-scribbled-on-earlier-result")
+                replay["steps"].append(["scribble", d])
+                continue
+            if planned is not None and planned[0] == "scribble":
+                continue
             if (planned is None and r < 0.3) or (planned is not None and planned[0] == "set"):
                 if planned is not None:
                     L = planned[1]
@@ -736,11 +867,15 @@ def run(ctx):
                     if L is not None and cur is not None and rng.random() < 0.4:
                         L = rng.sample(cur, n)             # the same labels, permuted
                         ctx.count("hist:labels-permuted")
+                Larr = None if L is None else (np.array(L) if rng.random() < 0.7 else (list(L) if rng.random() < 0.5 else tuple(L)))
+                if Larr is not None:
+                    in_snaps.append(Snapshot(Larr))
                 if kind == "dg":
-                    obj.node_labels = None if L is None else np.array(L)
+                    obj.node_labels = Larr
                 else:
-                    obj.state_values = None if L is None else np.array(L)
+                    obj.state_values = Larr
                     ctx.count("hist:mc-set-" + ("before-digraph" if frozen == "unbuilt" else "after-digraph"))
+                after_step([], "assigning labels %s" % (L,))
                 cur = L
                 steps.append("L:" + wire(L))
                 replay["steps"].append(["set", L])
@@ -750,9 +885,25 @@ def run(ctx):
             if kind == "mc" and frozen == "unbuilt":
                 frozen = cur
             if what == "sub":
-                nodes = rng.sample(range(n), rng.randint(1, n)) if planned is None else planned[2]
+                if planned is not None:
+                    nodes = planned[2]
+                elif last_nodes and rng.random() < 0.5:
+                    # the same method again with a related argument: same nodes in another order, or another set of that size
+                    nodes = rng.sample(last_nodes[0], len(last_nodes[0])) if rng.random() < 0.5 else rng.sample(range(n), len(last_nodes[0]))
+                    ctx.count("hist:subgraph-called-again-related-nodes")
+                else:
+                    nodes = rng.sample(range(n), rng.randint(1, n))
+                last_nodes[:] = [list(nodes)]
                 replay["steps"][-1].append(nodes)
-                h = obj.subgraph(np.array(nodes))
+                nodes_arr = np.array(nodes)
+                nsnap = Snapshot(nodes_arr)
+                h = obj.subgraph(nodes_arr)
+                if nsnap.changed():
+                    fail("sub:mutated-input", "subgraph() modified its nodes argument: " + nsnap.changed())
+                held_parent = arrays_of(obj)
+                if any(share(a, b) for a in arrays_of(h) for b in held_parent + [nodes_arr]):
+                    fail("sub:alias-state", "subgraph(%s) shares memory with its parent graph or with the nodes argument" % nodes)
+                after_step([], "subgraph(%s)" % nodes)
                 k = len(nodes)
                 Asub = [[int(A[u][v]) for v in nodes] for u in nodes]
                 got = (h.csgraph.toarray() != 0).astype(int).tolist()
@@ -798,7 +949,9 @@ def run(ctx):
                     fail(kind + ":hist-read", "is_aperiodic = %s with period %s" % (v, want_period))
                 outs.append(v if isinstance(v, str) else str(int(v))); steps.append("R:aper")
             elif what in names["idx"]:
-                got = tolists(attempt(lambda: getattr(obj, names["idx"][what])))
+                rawi = attempt(lambda: getattr(obj, names["idx"][what]))
+                got = tolists(rawi)
+                after_step(arrays_of(rawi), names["idx"][what])
                 check_idx(what, got)
                 outs.append(got if isinstance(got, str) else cls_str(rot0(got) if what == "cyc" else canon(got)))
                 steps.append("R:" + what)
@@ -806,6 +959,7 @@ def run(ctx):
                 iname = lab_of[what]
                 gi = tolists(attempt(lambda: getattr(obj, names["idx"][iname])))
                 raw = attempt(lambda: getattr(obj, names["lab"][what]))
+                after_step(arrays_of(raw), names["lab"][what])
                 check_idx(iname, gi)
                 eff = cur       # both objects must use the labels in force now (MarkovChain since /repo f4ee7b3)
                 if isinstance(raw, str):
@@ -847,6 +1001,7 @@ def run(ctx):
                 seen_last[what] = len(steps)
                 steps.append("R:" + what)
             ctx.count("hist:read")
+            after_step([], "reading " + str(what))
         if kind == "mc" and frozen != "unbuilt":
             # the model is told which labels the digraph froze (it derives them itself from the history)
             pass
@@ -854,20 +1009,258 @@ def run(ctx):
         cases.append(Case(line, " # ".join(outs), nontrivial=(len(outs) >= 2), tag="hist-" + kind))
         ctx.count("hist:" + kind)
 
+    # ---- ARGUMENT FORMS: the same graph handed over in every accepted representation --------------------------------
+    def mc_report(mc, with_labels):
+        rep = {
+            "sc": bool(mc.is_irreducible),
+            "nscc": int(mc.num_communication_classes),
+            "nsink": int(mc.num_recurrent_classes),
+            "scc": tolists(mc.communication_classes_indices),
+            "sink": tolists(mc.recurrent_classes_indices),
+            "period": attempt(lambda: int(mc.period)),
+            "aper": attempt(lambda: bool(mc.is_aperiodic)),
+            "cyc": tolists(attempt(lambda: mc.cyclic_classes_indices)),
+        }
+        if with_labels:
+            def rawlists(x):
+                return [list(np.asarray(c).tolist()) for c in x] if isinstance(x, list) else x
+            rep["scc_lab"] = rawlists(mc.communication_classes)
+            rep["sink_lab"] = rawlists(mc.recurrent_classes)
+            rep["cyc_lab"] = rawlists(attempt(lambda: mc.cyclic_classes))
+        return rep
+
+    DENSE_LAYOUTS = ["list", "tuple", "C", "F", "strided", "reversed-view", "transposed-view"]
+    INT_DTYPES = [np.bool_, np.int8, np.uint8, np.int16, np.int32, np.int64, np.uint64, np.intp, np.float32, np.float64]
+    SPARSE_FORMATS = ["csr", "csc", "coo", "lil", "bsr", "dia", "dok"]
+
+    def layout(M, how):
+        """the matrix M (ndarray) in the requested Python / memory layout"""
+        if how == "list":
+            return M.tolist()
+        if how == "tuple":
+            return tuple(tuple(r) for r in M.tolist())
+        if how == "C":
+            return np.ascontiguousarray(M)
+        if how == "F":
+            return np.asfortranarray(M)
+        if how == "strided":
+            big = np.zeros((2 * M.shape[0], 3 * M.shape[1]), dtype=M.dtype)
+            big[::2, ::3] = M
+            return big[::2, ::3]
+        if how == "reversed-view":
+            return np.ascontiguousarray(M[::-1, ::-1])[::-1, ::-1]
+        return np.ascontiguousarray(M.T).T       # transposed-view
+
+    def sparse_form(M, fmt, idx_dtype, zeros):
+        """M in a SciPy format; `zeros`: some non-edges are stored explicitly with value 0"""
+        n = M.shape[0]
+        ent = [(i, j, M[i, j]) for i in range(n) for j in range(n) if M[i, j] != 0]
+        if zeros:
+            free = [(i, j) for i in range(n) for j in range(n) if M[i, j] == 0]
+            ent += [(i, j, 0) for (i, j) in rng.sample(free, min(len(free), rng.randint(1, 3)))]
+            rng.shuffle(ent)
+        coo = sparse.coo_matrix((np.array([e[2] for e in ent], dtype=M.dtype),
+                                 (np.array([e[0] for e in ent], dtype=idx_dtype), np.array([e[1] for e in ent], dtype=idx_dtype))),
+                                shape=(n, n))
+        if fmt == "coo":
+            return coo
+        if fmt in ("lil", "dok", "dia"):        # these formats do not store explicit zeros / have no index dtype choice
+            return coo.asformat(fmt)
+        X = coo.asformat(fmt)
+        if fmt in ("csr", "csc", "bsr") and idx_dtype is np.int64:
+            X.indices = X.indices.astype(np.int64)
+            X.indptr = X.indptr.astype(np.int64)
+        return X
+
+    def label_form(labels):
+        if labels is None:
+            return None, "none"
+        how = rng.choice(["list", "tuple", "int64", "int8", "int32", "strided", "reversed-view"])
+        if how == "list":
+            return list(labels), how
+        if how == "tuple":
+            return tuple(labels), how
+        if how == "strided":
+            big = np.zeros(3 * len(labels), dtype=int)
+            big[::3] = labels
+            return big[::3], how
+        if how == "reversed-view":
+            return np.array(labels[::-1])[::-1], how
+        return np.array(labels, dtype={"int64": np.int64, "int8": np.int8, "int32": np.int32}[how]), how
+
+    def forms_case(A):
+        n = len(A)
+        rows = [[j for j in range(n) if A[i][j]] for i in range(n)]
+        kind = "mc" if (all(any(r) for r in A) and rng.random() < 0.4) else "dg"
+        labels = rng.sample(range(-40, 60), n) if rng.random() < 0.4 else None
+        weighted = kind == "dg" and rng.random() < 0.4
+        if kind == "mc":
+            W = [[(rng.choice([1, 2, 4]) if A[i][j] else 0) for j in range(n)] for i in range(n)]
+            tot = [rng.choice([x for x in (4, 8, 16) if x >= sum(w)] or [sum(w)]) for w in W]
+            for i in range(n):                   # dyadic rows that sum to one exactly, also in float32
+                j = next(j for j in range(n) if A[i][j])
+                W[i][j] += tot[i] - sum(W[i])
+            M = np.array([[W[i][j] / tot[i] for j in range(n)] for i in range(n)])
+            dtypes = [np.float64, np.float32]
+        elif weighted:
+            M = np.array(A, dtype=float) * np.array([[rng.choice([0.25, 0.5, 1.0, 2.0, 3.5]) for _ in range(n)] for _ in range(n)])
+            dtypes = [np.float64, np.float32]
+        else:
+            M = np.array(A, dtype=int)
+            dtypes = INT_DTYPES
+        dt = rng.choice(dtypes)
+        Md = M.astype(dt)
+        if rng.random() < 0.5:
+            how = rng.choice(DENSE_LAYOUTS)
+            arg = layout(Md, how)
+            form = "dense:%s:%s" % (how, np.dtype(dt).name)
+        else:
+            fmt = rng.choice(SPARSE_FORMATS)
+            idt = rng.choice([np.int32, np.int64])
+            zeros = rng.random() < 0.4
+            if dt is np.bool_ and fmt in ("bsr", "dia"):
+                Md = M.astype(np.int8)
+            arg = sparse_form(Md, fmt, idt, zeros)
+            form = "sparse:%s:%s:%s%s" % (fmt, np.dtype(Md.dtype).name, np.dtype(idt).name, ":zeros" if zeros else "")
+        lab, labhow = label_form(labels)
+        if os.environ.get('C03_DEBUG'): print('FORM', kind, form, A, flush=True)
+        snaps = [Snapshot(arg)] + ([Snapshot(lab)] if lab is not None else [])
+        replay = {"op": kind, "form": form, "labels_form": labhow, "weighted": bool(weighted), "n": n,
+                  "adj": [list(map(int, r)) for r in A], "labels": labels,
+                  "matrix": [[float(x) for x in r] for r in M.tolist()]}
+        try:
+            if kind == "dg":
+                style = rng.randrange(4)
+                if style == 0 and not weighted and lab is None:
+                    obj = DiGraph(arg)
+                elif style == 1:
+                    obj = DiGraph(arg, bool(weighted), lab)                      # positional
+                elif style == 2:
+                    obj = DiGraph(arg, weighted=np.bool_(weighted), node_labels=lab)
+                else:
+                    obj = DiGraph(adj_matrix=arg, node_labels=lab, weighted=int(weighted))
+                ctx.count("forms:dg-call-style-%d" % style)
+            else:
+                obj = MarkovChain(arg, lab) if rng.random() < 0.5 else MarkovChain(P=arg, state_values=lab)
+        except Exception as e:       # a legal representation of a legal input must be accepted
+            unlisted(ctx, "form-rejected:%s:%s:%s" % (kind, form.split(":")[0], form.split(":")[1]),
+                     "%s(%s) raised %s: %s" % ("DiGraph" if kind == "dg" else "MarkovChain", form, type(e).__name__, str(e)[:200]),
+                     replay)
+            return
+        if kind == "dg":
+            # a tuple of tuples is array_like, but scipy's csr_matrix reads tuples as (data, indices, indptr) / (data, ij) /
+            # shape: never read from an object whose CSR structure is corrupt (toarray / connected_components would crash)
+            cg = obj.csgraph
+            sane = (obj.n == n and len(cg.indptr) == n + 1 and cg.indptr[0] == 0 and all(np.diff(cg.indptr) >= 0)
+                    and cg.indptr[-1] == len(cg.indices) == len(cg.data) and all(0 <= int(j) < n for j in cg.indices))
+            if not sane:
+                unlisted(ctx, "dg-adjacency-misread:" + form.split(":")[1],
+                         "DiGraph(%s) built a graph with n=%s, indptr=%s instead of the %dx%d matrix" % (form, obj.n, cg.indptr.tolist(), n, n),
+                         replay)
+                return
+        try:
+            rep = dg_report(obj, lab is not None) if kind == "dg" else mc_report(obj, lab is not None)
+        except Exception as e:
+            unlisted(ctx, "form-read-failed:%s:%s:%s" % (kind, form.split(":")[0], form.split(":")[1]),
+                     "reading the properties of %s(%s) raised %s: %s" % (kind, form, type(e).__name__, str(e)[:200]), replay)
+            return
+        rep["labels"] = labels
+        replay["reported"] = dict(rep)
+        for sn in snaps:
+            why = sn.changed()
+            if why:
+                ctx.spec_fail(kind + ":mutated-input", "argument in form %s / labels %s was modified: %s" % (form, labhow, why), replay)
+        spec(kind, kind + ":", A, rep, replay)
+        if kind == "dg":
+            sstr = dg_string(rep, labels)
+        else:
+            a, b, c = class_strings(rep, labels)
+            aper = rep["aper"]
+            sstr = "irr=%d ncomm=%d nrec=%d comm=%s rec=%s period=%s aper=%s cyc=%s" % (
+                rep["sc"], rep["nscc"], rep["nsink"], a, b, rep["period"], int(aper) if isinstance(aper, bool) else aper, c)
+        line = "C03 %s n=%d adj=%s" % (kind, n, adj_str(rows))
+        if labels is not None:
+            line += " labels=" + ",".join(str(x) for x in labels)
+        cases.append(Case(line, sstr, nontrivial=(n >= 2), tag="forms-" + kind))
+        ctx.count("forms:" + form.rsplit(":", 1)[0] if form.startswith("dense") else "forms:" + ":".join(form.split(":")[:2]))
+        ctx.count("forms:labels-" + labhow)
+        # subgraph with the node list in every integer representation
+        if kind == "dg":
+            nodes = rng.sample(range(n), rng.randint(1, n))
+            nd = rng.choice(["list", "tuple", np.int8, np.uint8, np.int16, np.uint16, np.int32, np.uint32, np.int64, np.uint64, np.intp,
+                             "strided", "reversed-view"])
+            if nd == "list":
+                narg = list(nodes)
+            elif nd == "tuple":
+                narg = tuple(nodes)
+            elif nd == "strided":
+                big = np.zeros(2 * len(nodes), dtype=int); big[::2] = nodes; narg = big[::2]
+            elif nd == "reversed-view":
+                narg = np.array(nodes[::-1])[::-1]
+            else:
+                narg = np.array(nodes, dtype=nd)
+            ndname = nd if isinstance(nd, str) else np.dtype(nd).name
+            nsnap = Snapshot(narg)
+            rp = dict(replay, op="sub", nodes=nodes, nodes_form=ndname)
+            try:
+                h = obj.subgraph(narg)
+            except Exception as e:
+                unlisted(ctx, "subgraph-nodes-form-rejected:" + ndname,
+                         "subgraph(nodes as %s) raised %s: %s" % (ndname, type(e).__name__, str(e)[:200]), rp)
+                return
+            if nsnap.changed():
+                ctx.spec_fail("sub:mutated-input", "subgraph modified its nodes argument (%s)" % ndname, rp)
+            k = len(nodes)
+            Asub = [[int(A[u][v]) for v in nodes] for u in nodes]
+            got = (h.csgraph.toarray() != 0).astype(int).tolist()
+            sublabels = None if labels is None else [labels[u] for u in nodes]
+            hl = None if h.node_labels is None else [int(x) for x in h.node_labels]
+            if h.n != k or got != Asub:
+                ctx.spec_fail("sub:pattern", "subgraph(%s as %s) has pattern %s, expected %s" % (nodes, ndname, got, Asub), rp)
+            if hl != sublabels:
+                ctx.spec_fail("sub:labels", "subgraph(%s as %s) has labels %s, expected %s" % (nodes, ndname, hl, sublabels), rp)
+            if any(share(a, b) for a in arrays_of(h) for b in arrays_of(obj) + arrays_of(narg) + arrays_of(arg)):
+                ctx.spec_fail("sub:alias-state", "subgraph(%s) shares memory with its parent, its input or the nodes argument" % nodes, rp)
+            srep = dg_report(h, sublabels is not None)
+            srep["labels"] = sublabels
+            spec("dg", "sub:", Asub, srep, rp)
+            srows = [[j for j in range(k) if got[i][j]] for i in range(k)]
+            sline = "C03 sub n=%d adj=%s nodes=%s" % (n, adj_str(rows), ",".join(map(str, nodes)))
+            if labels is not None:
+                sline += " labels=" + ",".join(str(x) for x in labels)
+            cases.append(Case(sline, "n=%d adj=%s %s" % (h.n, adj_str(srows), dg_string(srep, sublabels)), nontrivial=(k >= 2), tag="forms-sub"))
+            ctx.count("forms:sub-nodes-" + ndname)
+
+    if r is None:
+        for A0 in ([[1]], [[0]], [[0, 1], [1, 0]], [[1, 0], [1, 1]]):
+            for _ in range(ctx.n(10, 40)):
+                forms_case(A0)
+        for _ in range(ctx.n(1200, 8000)):
+            forms_case(small_graph() if rng.random() < 0.8 else [[rng.randint(0, 1) for _ in range(3)] for _ in range(3)])
+
     seen_last = {}
     if r is not None:      # --replay of a recorded history
         history(r["adj"], r["kind"], script=r)
         ctx.run_cases(cases)
         return
+    def safe_history(A, kind):
+        """an exception escaping the library in the middle of a legal history is a violation with that history's graph"""
+        seen_last.clear()
+        try:
+            history(A, kind)
+        except Exception as e:
+            import traceback
+            ctx.spec_fail(kind + ":hist-exception", "the library raised %s: %s during a legal history" % (type(e).__name__, str(e)[:200]),
+                          {"op": "hist", "kind": kind, "n": len(A), "adj": [list(map(int, r_)) for r_ in A],
+                           "traceback": traceback.format_exc()[-1500:]})
+
     for A0 in ([[1]], [[0, 1], [1, 0]], [[1, 1], [0, 1]]):
         for kind in ("dg", "mc"):
             for _ in range(ctx.n(6, 30)):
-                seen_last.clear()
-                history(A0, kind)
+                safe_history(A0, kind)
     for _ in range(ctx.n(500, 5000)):
-        seen_last.clear()
         A = small_graph()
-        history(A, "mc" if (all(any(r) for r in A) and rng.random() < 0.4) else "dg")
+        safe_history(A, "mc" if (all(any(r) for r in A) and rng.random() < 0.4) else "dg")
 
     # ---- malformed stream (error paths of the constructors; no model counterpart) -------------------------
     for bad, exc in (((lambda: DiGraph(np.ones((2, 3)))), ValueError),
